@@ -107,6 +107,14 @@ func (x *FnCtx) call(fr *Frame, st *State, in ssa.Value, c *ssa.CallCommon) Valu
 	if fv, ok := x.val(fr, st, c.Value).(FuncV); ok {
 		return x.callFunction(fr, st, fv.Fn, args, fv.Bindings, site, resT)
 	}
+	if u, ok := c.Value.(*ssa.UnOp); ok {
+		if g, ok := u.X.(*ssa.Global); ok {
+			if gi := x.eng.globalInits[g]; gi != nil && gi.kind == "func" && gi.fn != nil {
+				x.usedAssumed["global treated as immutable after package initialisation: "+g.Pkg.Pkg.Path()+"."+g.Name()] = true
+				return x.callFunction(fr, st, gi.fn, args, nil, site, resT)
+			}
+		}
+	}
 	if name := dynFieldName(c.Value); name != "" {
 		if ctr := x.eng.specs.Contracts[pkgOf(fr.fn).Path()+".dyn."+name]; ctr != nil {
 			return x.applyContract(fr, st, ctr, nil, c.Signature(), nil, args, site, resT)
@@ -534,6 +542,20 @@ type modItem struct {
 func (x *FnCtx) resolveModifies(items []*Expr, ec *EvalCtx, where string) []modItem {
 	var out []modItem
 	for _, it := range items {
+		if it.Kind == "call" && len(it.Args) >= 1 && it.Args[0].Kind == "ident" {
+			if fd := x.eng.specs.Frames[it.Args[0].Name]; fd != nil && len(fd.Params) == len(it.Args)-1 {
+				m := map[string]*Expr{}
+				for i, pn := range fd.Params {
+					m[pn] = it.Args[i+1]
+				}
+				var sub []*Expr
+				for _, fi := range fd.Items {
+					sub = append(sub, substExpr(fi, m))
+				}
+				out = append(out, x.resolveModifies(sub, ec, where)...)
+				continue
+			}
+		}
 		mi, err := x.resolveModItem(it, ec)
 		if err != nil {
 			x.errs = append(x.errs, fmt.Sprintf("%s: modifies %s: %v", where, it, err))
@@ -1260,7 +1282,7 @@ func (x *FnCtx) dispatchCall(fr *Frame, st *State, recv *Term, full []Value, can
 	var tags []*Term
 	var fns []*ssa.Function
 	for _, c := range cands {
-		f := x.eng.fnByKey[pkg+"."+c]
+		f := x.eng.fnByKey[canonKey(pkg, c)]
 		if f == nil || f.Signature.Recv() == nil {
 			x.errs = append(x.errs, fmt.Sprintf("%s: dispatch candidate %s not found", site, c))
 			continue
